@@ -2,8 +2,13 @@ use crate::Fields;
 
 pub mod codec3;
 pub mod codec5;
+pub mod hs;
+pub mod inbound;
+pub mod iostate;
+pub mod limiter;
 pub mod respq;
 pub mod selftest;
+pub mod sink;
 pub mod topic;
 
 pub type Engine = fn(&Fields) -> Fields;
@@ -11,6 +16,8 @@ pub type Engine = fn(&Fields) -> Fields;
 pub fn lookup(name: &str) -> Option<Engine> {
     match name {
         "topic" => Some(topic::run),
+        // hand polled, needs no runtime: a plain per-line engine (a panic of the crate prints 9999)
+        "limiter" => Some(limiter::run),
         _ => codec3::lookup(name).or_else(|| codec5::lookup(name)),
     }
 }
@@ -23,13 +30,38 @@ pub fn run_stream(
 ) -> bool {
     // async engines: all cases of the input run on one single-threaded ntex runtime
     let lines: Vec<String> = match name {
-        "respq" | "selftest" => {
+        "respq" | "selftest" | "sink3" | "sink5" | "inb3" | "inb5" | "hs" | "iostate" => {
             let mut text = String::new();
             inp.read_to_string(&mut text).unwrap();
             text.lines().map(str::to_string).collect()
         }
         _ => return false,
     };
+    if name == "sink3" || name == "sink5" {
+        // own runtime loop: a panic escaping the per-task guards ends one case, not the run
+        for l in sink::run_lines(name == "sink5", lines) {
+            writeln!(out, "{l}").unwrap();
+        }
+        return true;
+    }
+    if name == "iostate" {
+        for l in iostate::run_lines(lines) {
+            writeln!(out, "{l}").unwrap();
+        }
+        return true;
+    }
+    if name == "hs" {
+        for l in hs::run_lines(lines) {
+            writeln!(out, "{l}").unwrap();
+        }
+        return true;
+    }
+    if name == "inb3" || name == "inb5" {
+        for l in inbound::run_lines(name == "inb5", lines) {
+            writeln!(out, "{l}").unwrap();
+        }
+        return true;
+    }
     let name = name.to_string();
     let results = std::rc::Rc::new(std::cell::RefCell::new(Vec::new()));
     let r2 = results.clone();
